@@ -43,6 +43,7 @@ func (s *State) clone() *State {
 
 // HeapCtx gives access to declarations for heap arrays.
 type HeapCtx struct {
+	ufunWF map[string]bool // slice-valued spec functions whose well-formedness axiom was emitted
 	w        *World
 	d        *Decls
 	arrSorts map[string]*Sort // heap array name -> sort (everything ever touched)
